@@ -25,7 +25,7 @@ import sim_machine_c07 as sim                                   # noqa: E402
 from rig.machine_control import scp_connection, struct_file    # noqa: E402
 from rig.machine_control import MachineController              # noqa: E402
 
-STRUCT_DATA = pkg_resources.resource_string("rig", "boot/sark.struct")
+STRUCTS = struct_file.read_struct_file(pkg_resources.resource_string("rig", "boot/sark.struct"))   # only read
 
 
 class MachineFaultSim(scpsim.FaultSim):
@@ -95,7 +95,7 @@ def run_case(c):
     restore = net.install(scp_connection)
     try:
         mc = MachineController("127.0.0.1", n_tries=c.get("n_tries", 5), timeout=c.get("timeout", 4),
-                               structs=struct_file.read_struct_file(STRUCT_DATA))
+                               structs=STRUCTS)
         if c.get("preset", True):
             mc._scp_data_length = c["buffer"]
         if c["window"] != 1:
